@@ -182,7 +182,7 @@ struct timespec* sentTime) {
           logError(lf_bus, "arbitration start: %s", getResultCode(ret));
           m_nextRequests.remove(startRequest);
           m_currentRequest = startRequest;
-          setState(bs_ready, ret);  // force the failed request to be notified
+          setState(m_state, ret);  // force the failed request to be notified (without leaving skip state before the next SYN)
         }
       }
     }
